@@ -117,6 +117,9 @@ for it in range(N):
     if not close(t.herfindahl_index.to_numpy(), (sw ** 2).sum(axis=1).to_numpy() if len(sw.columns) else np.zeros(len(rootv))): bad("herfindahl-is-sum-of-squared-security-weights", config=cfg)
     if not close(t.security_weights.to_numpy(), (pd.DataFrame({nm: sum(m.values for m in secs if m.name == nm) for nm in sorted({m.name for m in secs})}).div(rootv, axis=0))[list(t.security_weights.columns)].to_numpy() if len(secs) else np.zeros((len(rootv), 0))): bad("security-weights-unchanged-by-reading-other-reports", config=cfg)
     if not close(t.herfindahl_index.to_numpy(), (t.security_weights ** 2).sum(axis=1).to_numpy() if len(sw.columns) else np.zeros(len(rootv))): bad("herfindahl-stable-on-second-read", config=cfg)
+    # the component weights are the same frame whatever was read before them (they were read first above; security weights and HHI since)
+    w2 = t.weights
+    if list(w2.columns) != list(w.columns) or not close(w2.to_numpy(), w.to_numpy()): bad("component-weights-unchanged-by-reading-other-reports", columns_first=list(map(str, w.columns))[:8], columns_now=list(map(str, w2.columns))[:8], config=cfg)
     # 6. the Result's price series is the strategy's index
     if not close(res.prices[t.name].to_numpy(), s.prices.to_numpy()): bad("result-prices-are-the-strategy-index", config=cfg)
     # 7. replaying the transaction list reproduces positions and values (flat trees: one holder per ticker)
